@@ -253,47 +253,71 @@ def check(pid, tier="quick", seed=1, replay=None):
     proof_broken = (not build_ok) or bool(undischarged) or bool(audit_hits)
 
     # 3. correspondence
-    h = prop["harness"]
-    cb_ok, cb_out = cargo_build(h["package"], h["bin"], log)
+    hs = prop["harness"]
+    if isinstance(hs, dict):
+        hs = [hs]
+    h = hs[0]
+    cb_ok = True
+    for hh in hs:
+        ok1, _ = cargo_build(hh["package"], hh["bin"], log)
+        cb_ok = cb_ok and ok1
     cases, impl, model, tags, oracle = [], [], [], [], []
     stats = {}
     harness_ok = False
     corpus = os.path.join(VERIF, "corpus", pid + ".txt")
+
+    def routed(path, hh, name):
+        """case lines of `path` whose op (2nd token) belongs to harness binary hh"""
+        ops = hh.get("ops")
+        if not ops:
+            return path
+        keep = [l for l in read_lines(path) if len(l.split(" ")) > 1 and l.split("\t")[0].split(" ")[1] in ops]
+        out = os.path.join(workdir, "%s.%s.in" % (name, hh["bin"]))
+        os.makedirs(workdir, exist_ok=True)
+        with open(out, "w") as f:
+            f.write("".join(k + "\n" for k in keep))
+        return out if keep else None
+
     if cb_ok and drv_ok:
-        parts = []
-        if replay:
-            parts.append(("replay", ["replay", replay]))
-        else:
-            if os.path.exists(corpus) and os.path.getsize(corpus):
-                parts.append(("corpus", ["replay", corpus]))
-            extra = h.get("args_" + tier, [])
-            parts.append(("gen", ["gen", "--seed", str(seed), "--tier", tier] + extra))
         harness_ok = True
-        for name, args in parts:
-            d = os.path.join(workdir, name)
-            ok = run_harness(h["bin"], args, d, log)
-            if not ok:
-                harness_ok = False
-                continue
-            c = read_lines(os.path.join(d, "cases.txt"))
-            i = read_lines(os.path.join(d, "impl.txt"))
-            t = read_lines(os.path.join(d, "tags.txt"))
-            dr_ok = run_driver(pid, os.path.join(d, "cases.txt"), os.path.join(d, "model.txt"), log)
-            m = read_lines(os.path.join(d, "model.txt"))
-            if not dr_ok or len(m) != len(c) or len(i) != len(c):
-                harness_ok = False
-                log.append("line count mismatch: cases=%d impl=%d model=%d" % (len(c), len(i), len(m)))
-                continue
-            cases += c
-            impl += i
-            model += m
-            tags += t if len(t) == len(c) else [""] * len(c)
-            oracle += read_lines(os.path.join(d, "oracle.txt"))
-            try:
-                for k, v in json.load(open(os.path.join(d, "stats.json"))).items():
-                    stats[k] = stats.get(k, 0) + v
-            except Exception:
-                pass
+        for hh in hs:
+            parts = []
+            if replay:
+                r = routed(replay, hh, "replay")
+                if r:
+                    parts.append(("replay", ["replay", r]))
+            else:
+                if os.path.exists(corpus) and os.path.getsize(corpus):
+                    r = routed(corpus, hh, "corpus")
+                    if r:
+                        parts.append(("corpus", ["replay", r]))
+                extra = hh.get("args_" + tier, [])
+                parts.append(("gen", ["gen", "--seed", str(seed), "--tier", tier] + extra))
+            for name, args in parts:
+                d = os.path.join(workdir, name + ("" if hh is hs[0] else "_" + hh["bin"]))
+                ok = run_harness(hh["bin"], args, d, log)
+                if not ok:
+                    harness_ok = False
+                    continue
+                c = read_lines(os.path.join(d, "cases.txt"))
+                i = read_lines(os.path.join(d, "impl.txt"))
+                t = read_lines(os.path.join(d, "tags.txt"))
+                dr_ok = run_driver(pid, os.path.join(d, "cases.txt"), os.path.join(d, "model.txt"), log)
+                m = read_lines(os.path.join(d, "model.txt"))
+                if not dr_ok or len(m) != len(c) or len(i) != len(c):
+                    harness_ok = False
+                    log.append("line count mismatch: cases=%d impl=%d model=%d" % (len(c), len(i), len(m)))
+                    continue
+                cases += c
+                impl += i
+                model += m
+                tags += t if len(t) == len(c) else [""] * len(c)
+                oracle += read_lines(os.path.join(d, "oracle.txt"))
+                try:
+                    for k, v in json.load(open(os.path.join(d, "stats.json"))).items():
+                        stats[k] = stats.get(k, 0) + v
+                except Exception:
+                    pass
 
     # 4. classify
     def classify(cases, impl, model, tags, oracle):
@@ -316,18 +340,20 @@ def check(pid, tier="quick", seed=1, replay=None):
     # input: search harder (thorough generator, other seed) before reporting without a witness
     searched = 0
     if (proof_broken or t_lost) and not violations and cb_ok and drv_ok and not replay:
-        d = os.path.join(workdir, "search")
         n = str(prop.get("search_cases", 200000))
-        if run_harness(h["bin"], ["gen", "--seed", str(seed + 7919), "--tier", "thorough", "--cases", n], d, log):
+        for hh in hs:
+            d = os.path.join(workdir, "search_" + hh["bin"])
+            if not run_harness(hh["bin"], ["gen", "--seed", str(seed + 7919), "--tier", "thorough", "--cases", n], d, log):
+                continue
             c = read_lines(os.path.join(d, "cases.txt"))
             i = read_lines(os.path.join(d, "impl.txt"))
             t = read_lines(os.path.join(d, "tags.txt"))
             if run_driver(pid, os.path.join(d, "cases.txt"), os.path.join(d, "model.txt"), log):
                 m = read_lines(os.path.join(d, "model.txt"))
                 if len(m) == len(c) == len(i):
-                    searched = len(c)
-                    violations = classify(c, i, m, t if len(t) == len(c) else [""] * len(c),
-                                          read_lines(os.path.join(d, "oracle.txt")))
+                    searched += len(c)
+                    violations += classify(c, i, m, t if len(t) == len(c) else [""] * len(c),
+                                           read_lines(os.path.join(d, "oracle.txt")))
 
     new, known_hits = [], {}
     for v in violations:
@@ -403,7 +429,7 @@ def check(pid, tier="quick", seed=1, replay=None):
                 "Lean 4.33.0 kernel",
                 "axioms: " + ", ".join(sorted(ALLOWED_AXIOMS)) + ("; plus " + ", ".join(nonstd_axioms) if nonstd_axioms else ""),
                 "tools/translate.py (constants / straight-line functions regenerated from /repo each run)",
-                "correspondence harness harness/%s/src/bin/%s.rs and its generators/canonicalisers" % (h["package"], h["bin"]),
+                "correspondence harness " + ", ".join("harness/%s/src/bin/%s.rs" % (x["package"], x["bin"]) for x in hs) + " and its generators/canonicalisers",
             ] + prop.get("trusted_base_extra", []),
             "theorems": discharged,
             "undischarged": undischarged,
